@@ -98,6 +98,10 @@ def h_clear(who, state, shape):
     fp = None
     if shape == 'init_req':
         d0 = p.first_init_req()
+    elif shape == 'notify_sym':
+        # a cleartext notification of ARBITRARY type (16 bits) with 2 arbitrary data bytes
+        d0 = clear_datagram(p, me, 'notify_auth_failed')
+        d0 = core.SymBytes.lift(d0[:34]) + eng.sym_int('notify_type', 0, 0xFFFF).to_bytes(2, 'big') + d0[36:]
     elif shape == 'raw_payload':
         # one cleartext payload of ARBITRARY UNKNOWN type, arbitrary critical/reserved octet and 4 arbitrary body bytes
         d0 = clear_datagram(p, me, 'empty')
@@ -111,7 +115,7 @@ def h_clear(who, state, shape):
         d0 = clear_datagram(p, me, shape)
     exch = eng.sym_int('exch', 0, 255)
     flags = eng.sym_int('flags', 0, 255)
-    if shape == 'raw_payload':
+    if shape in ('raw_payload', 'notify_sym'):
         # the sender's role flag is the peer's (other values: the other shapes); request/response and the remaining bits arbitrary
         eng.assume(((flags & 0x08) != 0) != me.is_initiator)
     mid = eng.sym_int('mid', 0, 0xFFFFFFFF)
@@ -324,7 +328,7 @@ def h_ctl(layout_kind, how, src=None):
 KEYED_A = tuple(s for s in world.ALL_STATES_A if s != 'INIT_REQ_SENT')
 KEYED_B = world.ALL_STATES_B
 FOREIGN = __import__('ipaddress').ip_address('203.0.113.9')
-SHAPES = ('raw_payload', 'empty', 'delete_ike', 'delete_esp', 'notify_auth_failed', 'notify_cookie', 'sa_nonce_ke', 'child_sa', 'init_req')
+SHAPES = ('raw_payload', 'notify_sym', 'empty', 'delete_ike', 'delete_esp', 'notify_auth_failed', 'notify_cookie', 'sa_nonce_ke', 'child_sa', 'init_req')
 
 
 def build_instances(tier):
@@ -335,6 +339,8 @@ def build_instances(tier):
     for who, st in whos:
         for shape in SHAPES:
             if tier == 'quick' and shape in ('notify_cookie', 'delete_esp') and st not in ('ESTABLISHED', 'INIT_RES_SENT', 'AUTH_REQ_SENT'):
+                continue
+            if tier == 'quick' and shape == 'notify_sym' and st not in ('ESTABLISHED', 'INIT_RES_SENT', 'AUTH_REQ_SENT', 'DPD_REQ_SENT', 'NEW_CHILD_REQ_SENT'):
                 continue
             inst.append(Instance(f'cleartext {who} {st} {shape}', h_clear, (who, st, shape), native=nat(h_clear), must_reach=reached))
         kinds = ['response'] if st.endswith('REQ_SENT') else []
